@@ -180,6 +180,28 @@ def run_unit(modname, tier, unit_name, seed):
             if not same and not eng.sample_dependent:
                 res['divergences'].append({'unit': unit_name, 'inputs': values, 'symbolic': outcome, 'concrete': r['outcome'],
                                            'sym_covers': sorted(ctx.covers), 'conc_covers': r['covers'], 'trace': r.get('exc') or tb})
+            # preferred witnesses (ctx.prefer): further solver models of the SAME path condition, replayed the same way
+            prefs = getattr(ctx, 'prefs', None)
+            if prefs and out[0] == 'ok':
+                done = {json.dumps(values, sort_keys=True)}
+                for profile, conds in prefs.items():
+                    hv = eng.preferred_model(conds)
+                    key = json.dumps(hv, sort_keys=True)
+                    if key in done:
+                        continue
+                    done.add(key)
+                    r = rc.run(unit_name, hv)
+                    res['replayed'] += 1
+                    res['preferred_witnesses'] = res.get('preferred_witnesses', 0) + 1
+                    for x in r['failed']:
+                        if x['name'] not in symnames and not r['aborted']:
+                            res['violations'].append({'unit': unit_name, 'check': x['name'], 'sig': x['sig'], 'info': x['info'],
+                                                      'inputs': hv, 'reproduced': True, 'witness': True, 'profile': profile,
+                                                      'concrete': {'outcome': r['outcome'], 'failed': r['failed'], 'exc': r.get('exc')}})
+                    same = (r['outcome'] == outcome and r['covers'] == sorted(ctx.covers) and not r['aborted'])
+                    if not same and not eng.sample_dependent:
+                        res['divergences'].append({'unit': unit_name, 'inputs': hv, 'symbolic': outcome, 'concrete': r['outcome'], 'profile': profile,
+                                                   'sym_covers': sorted(ctx.covers), 'conc_covers': r['covers'], 'trace': r.get('exc') or tb})
         for f in ctx.failed:
             v = {'unit': unit_name, 'check': f.name, 'sig': f.sig, 'info': f.info, 'inputs': f.model, 'reproduced': None}
             if rc is not None:
